@@ -17,7 +17,7 @@ EXPLANATION = ('A crash point is a boundary between two filesystem calls, so val
                'mutating effect closure of prune is {unlink, utimens}, of temp cleanup {unlink}; (R02.5) age gate (as C17); '
                '(R02.6) after a failed first publish attempt no Ok exit is reachable without create_dir_all(parent) and a second '
                'attempt. That later operations succeed on a crashed tree is not decided.')
-FLOORS = {'R02.1': 2, 'R02.2': 3, 'R02.3': 5, 'R02.4': 2, 'R02.5': 3, 'R02.6': 2}
+FLOORS = {'R02.1': 2, 'R02.2': 3, 'R02.3': 5, 'R02.4': 2, 'R02.5': 3, 'R02.6': 2, 'R02.7': 1}
 
 
 def r02_1(ctx):
@@ -201,6 +201,33 @@ def r02_6(ctx):
     return out
 
 
+def r02_7(ctx):
+    """"debris older than the limit is removed by later maintenance": the sweep of the temporary directory is
+    per-entry best effort -- a failure to stat or unlink one entry (a stale subdirectory, someone else's file, a peer
+    that won the race) must not end the sweep: from the Err outcome of every per-entry call, every path to the end of
+    the sweep asks the directory stream for its next entry first."""
+    key = c17.temp_cleanup_key(ctx)
+    q = ctx.explore(key)
+
+    def entry_of(v):
+        return v is not None and any(VAL[x][0] == 'sym' and VAL[x][1] == 'app' and VAL[x][2].endswith('::next') and
+                                     any(VAL[y][0] == 'sym' and VAL[y][1] == 'app' and prims.classify(VAL[y][2])[0] == 'list_dir' for y in values.subs(x))
+                                     for x in values.subs(v))
+    per_entry = q.edges(lambda ev: ev['k'] == 'ext' and (prims.classify_event(ev)[0] in ('probe', 'ns_remove_file') or ev['path'] in ('std::fs::Metadata::modified', 'std::fs::Metadata::accessed'))
+                        and any(entry_of(a) for a in ev['args']))
+    nexts = q.edges(lambda ev: ev['k'] == 'ext' and ev['path'].endswith('::next') and
+                    any(VAL[y][0] == 'sym' and VAL[y][1] == 'app' and prims.classify(VAL[y][2])[0] == 'list_dir' for a in ev['args'] if a is not None for y in values.subs(a)))
+    errs = outcomes(q, per_entry, 'Err')
+    ends = q.terminals(lambda ev: ev['k'] == 'ret')
+    esc = q.must_follow(errs, nexts, ends) if errs else []
+    ok = bool(per_entry) and bool(nexts) and bool(errs) and not esc
+    return [inst('R02.7', 'tempcleanup.sweep continues past failures', ok,
+                 'after a failed per-entry stat/unlink (%d sites) the sweep always asks for the next entry before it ends' % len(per_entry) if ok else
+                 ('a failure on one temporary file (%s) can end the sweep: the stale files after it in the listing are never removed' % q.E[esc[0]][2]['site'][2]
+                  if esc else 'per-entry calls of the temporary-directory sweep not found'),
+                 path=witness_path(q, esc[0]) if esc else [])]
+
+
 def run(ctx):
     from runner import collect
-    return collect(ctx, r02_1, r02_2, r02_3, r02_4, r02_5, r02_6)
+    return collect(ctx, r02_1, r02_2, r02_3, r02_4, r02_5, r02_6, r02_7)
